@@ -79,6 +79,20 @@ def gen_cases(chk):
                                                              "withLinearRegression=NO", "quantization_intervals=64;szMode=SZ_BEST_SPEED", "losslessCompressor=GZIP_COMPRESSOR"))
                 bits = [f32b(x) if ty == 0 else f64b(x) for x in v]
                 cases.append("rt %x %s %s %x %s %s 0 %s x:%s" % (ty, tup5(t), tup5(t), mode, dbits(absb), dbits(rel), cfg, ",".join("%x" % b for b in bits)))
+    # arrays stored as one value (exactly constant, or a plateau with noise far below the bound), away from zero: the range written into such a
+    # stream is what the decompressor clamps to as well
+    for t in ((100,), (30, 40), (8, 9, 10)):
+        n = 1
+        for v in t:
+            n *= v
+        for ty in (0, 1):
+            for base, noise in ((255.0, 0.0), (-37.5, 0.0), (100.0, 1e-6), (1e-3, 1e-9)):
+                v = [base + noise * rng.uniform(-1, 1) for _ in range(n)]
+                if ty == 0:
+                    v = [struct.unpack("<f", struct.pack("<f", x))[0] for x in v]
+                bits = [f32b(x) if ty == 0 else f64b(x) for x in v]
+                cfg = "protectValueRange=YES;" + rng.choice(("szMode=SZ_BEST_SPEED", "szMode=SZ_BEST_COMPRESSION"))
+                cases.append("rt %x %s %s 0 %s %s 0 %s x:%s" % (ty, tup5(t), tup5(t), dbits(abs(base) * 1e-2), dbits(1e-3), cfg, ",".join("%x" % b for b in bits)))
     return cases
 
 
